@@ -1,1 +1,383 @@
-pub fn run() -> bool { true }
+//! Conformance of the assumptions the framework's dependency shims make, checked by
+//! running the real dependency code.
+
+use crate::keys;
+use crate::rng::Rng;
+use crate::util::{now, J};
+use base64::engine::general_purpose::URL_SAFE_NO_PAD;
+use base64::Engine;
+use jsonwebtoken::{Algorithm, DecodingKey, EncodingKey, Header, Validation};
+use serde_json::{json, Map, Value};
+use std::panic::{catch_unwind, AssertUnwindSafe};
+
+struct Report {
+    ok: bool,
+}
+
+impl Report {
+    fn line(&mut self, name: &str, result: Result<usize, String>) {
+        match result {
+            Ok(n) => println!("OK {name} ({n} cases)"),
+            Err(e) => {
+                self.ok = false;
+                println!("FAILED {name} {e}");
+            }
+        }
+    }
+}
+
+fn keys_of(m: &Map<String, Value>) -> Vec<String> {
+    m.keys().cloned().collect()
+}
+
+fn map_order() -> Result<usize, String> {
+    let mut n = 0;
+    let mut rng = Rng::new(7);
+    for round in 0..200 {
+        let mut m = Map::new();
+        let mut expect: Vec<String> = Vec::new();
+        let len = 1 + rng.below(12);
+        for i in 0..len {
+            let k = format!("{}{}", ["z", "a", "_sd", "m", "\u{1F600}", "0"][rng.below(6)], (round * 31 + i * 7) % 17);
+            if m.insert(k.clone(), json!(i)).is_none() {
+                expect.push(k);
+            }
+            n += 1;
+            if keys_of(&m) != expect {
+                return Err(format!("insert: order {:?}, expected insertion order {:?}", keys_of(&m), expect));
+            }
+        }
+        // re-inserting an existing key keeps its position
+        let k = expect[rng.below(expect.len())].clone();
+        m.insert(k, json!("again"));
+        if keys_of(&m) != expect {
+            return Err(format!("re-insert moved a key: {:?} vs {:?}", keys_of(&m), expect));
+        }
+        while !expect.is_empty() {
+            let i = rng.below(expect.len());
+            let k = expect.remove(i);
+            if m.shift_remove(&k).is_none() {
+                return Err(format!("shift_remove({k}) found nothing"));
+            }
+            n += 1;
+            if keys_of(&m) != expect {
+                return Err(format!("shift_remove: order {:?}, expected {:?}", keys_of(&m), expect));
+            }
+        }
+        // shift_remove_entry and append as used by the issuer
+        let mut a: Map<String, Value> = serde_json::from_str(r#"{"x":1,"iss":"i","y":2,"exp":3}"#).unwrap();
+        let removed: Map<String, Value> = ["iss", "iat", "exp"].into_iter().filter_map(|k| a.shift_remove_entry(k)).collect();
+        if keys_of(&a) != ["x", "y"] || keys_of(&removed) != ["iss", "exp"] {
+            return Err(format!("shift_remove_entry: left {:?}, removed {:?}", keys_of(&a), keys_of(&removed)));
+        }
+        let mut removed = removed;
+        a.append(&mut removed);
+        if keys_of(&a) != ["x", "y", "iss", "exp"] {
+            return Err(format!("append: {:?}", keys_of(&a)));
+        }
+        n += 2;
+    }
+    // parse / print keep the textual order
+    let text = r#"{"b":1,"a":{"d":1,"c":2},"_sd":[],"0":null}"#;
+    let v: Value = serde_json::from_str(text).map_err(|e| e.to_string())?;
+    if serde_json::to_string(&v).unwrap() != text {
+        return Err(format!("parse/print does not preserve member order: {}", serde_json::to_string(&v).unwrap()));
+    }
+    Ok(n + 1)
+}
+
+fn map_index() -> Result<usize, String> {
+    let m: Map<String, Value> = serde_json::from_str(r#"{"a":1}"#).unwrap();
+    let v = Value::Object(m.clone());
+    if v["missing"] != Value::Null || v["a"]["deeper"] != Value::Null || json!([1])[5] != Value::Null || json!("s")["x"] != Value::Null || json!([1])["k"] != Value::Null {
+        return Err("value[\"missing\"] is not Null".into());
+    }
+    let r = catch_unwind(AssertUnwindSafe(|| m["missing"].clone()));
+    if r.is_ok() {
+        return Err("map[\"missing\"] did not panic".into());
+    }
+    let r = catch_unwind(AssertUnwindSafe(|| m["a"].clone()));
+    if r.ok() != Some(json!(1)) {
+        return Err("map[\"a\"] did not return the member".into());
+    }
+    let r = catch_unwind(AssertUnwindSafe(|| {
+        let a = vec![json!(1)];
+        a[1].clone()
+    }));
+    if r.is_ok() {
+        return Err("vec[len] did not panic".into());
+    }
+    Ok(8)
+}
+
+fn validation_defaults() -> Result<usize, String> {
+    let mut n = 0;
+    for alg in [Algorithm::ES256, Algorithm::EdDSA, Algorithm::HS256, Algorithm::RS256, Algorithm::ES384] {
+        let v = Validation::new(alg);
+        if !v.validate_exp {
+            return Err(format!("{alg:?}: validate_exp is false"));
+        }
+        if v.validate_nbf {
+            return Err(format!("{alg:?}: validate_nbf is true"));
+        }
+        if v.leeway != 60 {
+            return Err(format!("{alg:?}: leeway is {}", v.leeway));
+        }
+        let req: Vec<&String> = v.required_spec_claims.iter().collect();
+        if req.len() != 1 || req[0] != "exp" {
+            return Err(format!("{alg:?}: required_spec_claims is {:?}", v.required_spec_claims));
+        }
+        if v.algorithms != vec![alg] {
+            return Err(format!("{alg:?}: algorithms is {:?}", v.algorithms));
+        }
+        if v.aud.is_some() || v.iss.is_some() || v.sub.is_some() {
+            return Err(format!("{alg:?}: aud/iss/sub pre-set"));
+        }
+        n += 1;
+    }
+    Ok(n)
+}
+
+fn tok(alg: Algorithm, key: &EncodingKey, claims: &J) -> String {
+    jsonwebtoken::encode(&Header::new(alg), claims, key).unwrap()
+}
+
+fn decode_behaviour() -> Result<usize, String> {
+    let mut n = 0;
+    let es_enc = keys::issuer_enc("ES256");
+    let es_dec = keys::issuer_dec("ES256");
+    let ed_enc = keys::issuer_enc("EdDSA");
+    let ed_dec = keys::issuer_dec("EdDSA");
+    let hs_enc = keys::issuer_enc("HS256");
+    let hs_dec = keys::issuer_dec("HS256");
+    let t = now();
+    let dec = |token: &str, key: &DecodingKey, v: &Validation| jsonwebtoken::decode::<Map<String, Value>>(token, key, v).map(|d| d.claims);
+    let v_es = Validation::new(Algorithm::ES256);
+    // exp
+    for (off, ok) in [(-10 * 365 * 86400, false), (-3600, false), (-120, false), (-61, false), (-30, true), (0, true), (120, true), (3600, true)] {
+        let r = dec(&tok(Algorithm::ES256, &es_enc, &json!({"exp": t + off})), &es_dec, &v_es);
+        n += 1;
+        if r.is_ok() != ok {
+            return Err(format!("exp = now{off:+}: decode -> {:?}, expected {}", r.map(|_| "Ok").map_err(|e| e.to_string()), if ok { "Ok" } else { "Err" }));
+        }
+    }
+    for claims in [json!({}), json!({"exp": null}), json!({"exp": "4102444800"}), json!({"exp": "x"}), json!({"exp": true}), json!({"exp": [4102444800u64]}), json!({"exp": -1})] {
+        let r = dec(&tok(Algorithm::ES256, &es_enc, &claims), &es_dec, &v_es);
+        n += 1;
+        if r.is_ok() {
+            return Err(format!("claims {claims}: decode accepted a token without a usable exp"));
+        }
+    }
+    // float exp accepted
+    if dec(&tok(Algorithm::ES256, &es_enc, &json!({"exp": 4102444800.0})), &es_dec, &v_es).is_err() {
+        return Err("float exp in the future rejected".into());
+    }
+    n += 1;
+    // nbf only when validate_nbf
+    let mut v_nbf = Validation::new(Algorithm::ES256);
+    v_nbf.validate_nbf = true;
+    for (off, ok_with) in [(-3600, true), (0, true), (30, true), (61, false), (120, false), (3600, false), (10 * 365 * 86400, false)] {
+        let token = tok(Algorithm::ES256, &es_enc, &json!({"exp": t + 7200 + 10 * 365 * 86400, "nbf": t + off}));
+        n += 2;
+        if dec(&token, &es_dec, &v_es).is_err() {
+            return Err(format!("nbf = now{off:+} rejected although validate_nbf is off"));
+        }
+        if dec(&token, &es_dec, &v_nbf).is_ok() != ok_with {
+            return Err(format!("nbf = now{off:+} with validate_nbf: expected {}", if ok_with { "Ok" } else { "Err" }));
+        }
+    }
+    // alg not in validation.algorithms
+    let good = json!({"exp": t + 3600});
+    let t_es = tok(Algorithm::ES256, &es_enc, &good);
+    let t_ed = tok(Algorithm::EdDSA, &ed_enc, &good);
+    let t_hs = tok(Algorithm::HS256, &hs_enc, &good);
+    let checks: Vec<(&str, &String, &DecodingKey, Algorithm, bool)> = vec![
+        ("ES256 token, ES256 key, ES256 validation", &t_es, &es_dec, Algorithm::ES256, true),
+        ("EdDSA token, Ed key, EdDSA validation", &t_ed, &ed_dec, Algorithm::EdDSA, true),
+        ("HS256 token, secret, HS256 validation", &t_hs, &hs_dec, Algorithm::HS256, true),
+        ("ES256 token, ES256 key, EdDSA validation (alg not allowed)", &t_es, &es_dec, Algorithm::EdDSA, false),
+        ("ES256 token, ES256 key, ES384 validation (alg not allowed)", &t_es, &es_dec, Algorithm::ES384, false),
+        ("HS256 token, secret, ES256 validation (alg not allowed)", &t_hs, &hs_dec, Algorithm::ES256, false),
+        ("ES256 token, Ed key, ES256 validation (key of another family)", &t_es, &ed_dec, Algorithm::ES256, false),
+        ("EdDSA token, EC key, EdDSA validation (key of another family)", &t_ed, &es_dec, Algorithm::EdDSA, false),
+        ("HS256 token, EC key, HS256 validation (key of another family)", &t_hs, &es_dec, Algorithm::HS256, false),
+        ("ES256 token, secret key, ES256 validation (key of another family)", &t_es, &hs_dec, Algorithm::ES256, false),
+    ];
+    for (what, token, key, alg, ok) in checks {
+        n += 1;
+        let r = dec(token, key, &Validation::new(alg));
+        if r.is_ok() != ok {
+            return Err(format!("{what}: decode -> {}, expected {}", if r.is_ok() { "Ok" } else { "Err" }, if ok { "Ok" } else { "Err" }));
+        }
+    }
+    // HMAC forgery keyed with the EC public key bytes is rejected by decode when the key is an EC key
+    let raw = keys::spki_raw_key(keys::ISSUER_ES256_PUB);
+    let forged = tok(Algorithm::HS256, &EncodingKey::from_secret(&raw), &good);
+    n += 1;
+    if dec(&forged, &es_dec, &Validation::new(Algorithm::HS256)).is_ok() {
+        return Err("HS256 token keyed with the EC public key accepted under the EC DecodingKey".into());
+    }
+    // wrong signature / other key
+    n += 1;
+    if dec(&t_es, &keys::issuer_dec("ES256-other"), &v_es).is_ok() {
+        return Err("ES256 token accepted under another ES256 key".into());
+    }
+    // aud handling used for KB-JWTs
+    let mut v_aud = Validation::new(Algorithm::ES256);
+    v_aud.set_audience(&["A"]);
+    v_aud.set_required_spec_claims(&["aud"]);
+    for (claims, ok) in [(json!({"aud": "A"}), true), (json!({"aud": "B"}), false), (json!({}), false), (json!({"aud": ["A", "B"]}), true), (json!({"aud": null}), false)] {
+        n += 1;
+        let r = dec(&tok(Algorithm::ES256, &es_enc, &claims), &es_dec, &v_aud);
+        if r.is_ok() != ok {
+            return Err(format!("aud validation, claims {claims}: expected {}", if ok { "Ok" } else { "Err" }));
+        }
+    }
+    Ok(n)
+}
+
+fn gen_value(rng: &mut Rng, depth: usize, long_floats: bool) -> J {
+    let strings = ["", "a", "\u{1F600}", "\u{10FFFF}\u{10000}", "q\"b\\s/\n\t\r\u{8}\u{c}\u{0}\u{1f}\u{7f}", "\u{e9}\u{4e2d}\u{ffff}\u{fffd}\u{2028}", "_sd", "...", "\u{1D11E} x \u{1F468}\u{200D}\u{1F469}"];
+    if depth == 0 || rng.chance(2, 5) {
+        return match rng.below(9) {
+            0 => J::Null,
+            1 => json!(rng.coin()),
+            2 => json!(rng.next()),
+            3 => json!(-(rng.next() as i64 >> 1)),
+            4 => {
+                if long_floats {
+                    let f = f64::from_bits(rng.next());
+                    if f.is_finite() { json!(f) } else { json!(0.5) }
+                } else {
+                    // at most 15 significant digits
+                    json!(((rng.next() % 2_000_000_000_000) as f64 - 1e12) / 1000.0)
+                }
+            }
+            5 => json!(1.5e300),
+            6 => json!(-0.0),
+            _ => json!(*rng.pick(&strings)),
+        };
+    }
+    if rng.coin() {
+        J::Array((0..rng.below(4)).map(|_| gen_value(rng, depth - 1, long_floats)).collect())
+    } else {
+        let mut m = Map::new();
+        for _ in 0..rng.below(4) {
+            m.insert(rng.pick(&strings).to_string(), gen_value(rng, depth - 1, long_floats));
+        }
+        J::Object(m)
+    }
+}
+
+fn json_roundtrip(long_floats: bool) -> Result<usize, String> {
+    let mut rng = Rng::new(11);
+    let mut n = 0;
+    let mut bad = 0;
+    let mut first_bad = String::new();
+    for _ in 0..600 {
+        let v = gen_value(&mut rng, 4, long_floats);
+        let text = serde_json::to_string(&v).map_err(|e| e.to_string())?;
+        let back: J = serde_json::from_str(&text).map_err(|e| format!("parse({text}) failed: {e}"))?;
+        if back != v {
+            if long_floats {
+                bad += 1;
+                if first_bad.is_empty() {
+                    first_bad = format!("{} parses back as {}", text, serde_json::to_string(&back).unwrap());
+                }
+                continue;
+            }
+            return Err(format!("parse(to_string(v)) != v for {text}"));
+        }
+        // member order survives too
+        if serde_json::to_string(&back).unwrap() != text {
+            return Err(format!("to_string(parse(t)) != t for {text}"));
+        }
+        // Display == to_string (the library uses value.to_string())
+        if v.to_string() != text {
+            return Err(format!("Display differs from to_string for {text}"));
+        }
+        n += 1;
+    }
+    if bad > 0 {
+        return Err(format!("parse(to_string(v)) != v for {bad} of 600 values containing arbitrary f64 (serde_json is built without `float_roundtrip`), e.g. {}", crate::util::short(&first_bad, 300)));
+    }
+    // \u escapes incl. surrogate pairs parse to the scalar
+    let v: J = serde_json::from_str("\"\\ud83d\\ude00 \\u00e9 \\udbff\\udfff\"").map_err(|e| e.to_string())?;
+    if v != json!("\u{1F600} \u{e9} \u{10FFFF}") {
+        return Err("surrogate pair escapes do not parse to the scalar value".into());
+    }
+    if serde_json::from_str::<J>(r#""\ud83d""#).is_ok() {
+        return Err("lone surrogate escape accepted".into());
+    }
+    Ok(n + 2)
+}
+
+fn escape_unicode_len() -> Result<usize, String> {
+    let mut n = 0;
+    for cp in 0..=0x10FFFFu32 {
+        let Some(c) = char::from_u32(cp) else { continue };
+        let hex_digits = if cp == 0 { 1 } else { ((32 - cp.leading_zeros()) as usize + 3) / 4 };
+        let s = c.escape_unicode().to_string();
+        let count = s.chars().count();
+        if count != 4 + hex_digits {
+            return Err(format!("U+{cp:04X}: escape_unicode is `{s}` ({count} chars), expected {}", 4 + hex_digits));
+        }
+        if !s.starts_with("\\u{") || !s.ends_with('}') || u32::from_str_radix(&s[3..s.len() - 1], 16).ok() != Some(cp) {
+            return Err(format!("U+{cp:04X}: escape_unicode is `{s}`"));
+        }
+        n += 1;
+    }
+    Ok(n)
+}
+
+fn base64_behaviour() -> Result<usize, String> {
+    let mut rng = Rng::new(5);
+    let mut n = 0;
+    for len in 0..300 {
+        let x: Vec<u8> = (0..len % 70).map(|_| rng.next() as u8).collect();
+        let e = URL_SAFE_NO_PAD.encode(&x);
+        if e.contains('=') || e.contains('+') || e.contains('/') {
+            return Err(format!("encode produced `{e}`"));
+        }
+        match URL_SAFE_NO_PAD.decode(&e) {
+            Ok(d) if d == x => {}
+            other => return Err(format!("decode(encode(x)) != x for {x:?}: {other:?}")),
+        }
+        n += 1;
+        if x.len() % 3 != 0 {
+            let pad = "=".repeat(3 - x.len() % 3);
+            if URL_SAFE_NO_PAD.decode(format!("{e}{pad}")).is_ok() {
+                return Err(format!("decode accepted canonical padding `{e}{pad}`"));
+            }
+            n += 1;
+        }
+        if URL_SAFE_NO_PAD.decode(format!("{e}=")).is_ok() {
+            return Err(format!("decode accepted a trailing '=' after `{e}`"));
+        }
+        n += 1;
+    }
+    // non-canonical trailing bits, standard alphabet and whitespace are rejected
+    for bad in ["QQ=", "QQ==", "QR", "a+b/", "YQ Yg", "YQ\n", "Y"] {
+        if URL_SAFE_NO_PAD.decode(bad).is_ok() {
+            return Err(format!("decode accepted `{bad}`"));
+        }
+        n += 1;
+    }
+    if URL_SAFE_NO_PAD.decode("").ok() != Some(vec![]) {
+        return Err("decode(\"\") is not empty".into());
+    }
+    Ok(n + 1)
+}
+
+pub fn run() -> bool {
+    let mut r = Report { ok: true };
+    r.line("serde_json.map.preserve_order.insert_shift_remove", map_order());
+    r.line("serde_json.index.map_missing_panics.value_missing_null", map_index());
+    r.line("jsonwebtoken.validation_new.defaults", validation_defaults());
+    r.line("jsonwebtoken.decode.exp_nbf_alg_keyfamily", decode_behaviour());
+    r.line("serde_json.roundtrip.parse_to_string.floats_upto_15_digits", json_roundtrip(false));
+    r.line("serde_json.roundtrip.parse_to_string.arbitrary_f64", json_roundtrip(true));
+    r.line("core.char.escape_unicode.length", escape_unicode_len());
+    r.line("base64.url_safe_no_pad.roundtrip_rejects_padding", base64_behaviour());
+    r.ok
+}
